@@ -741,6 +741,30 @@ func mergeStates(base int, sts []*State) *State {
 		}
 	}
 	m.alloc, _ = pick("Int", func(s *State) (string, bool) { return s.alloc, true })
+	// deferred calls: the common prefix stays unconditional; a defer registered on some paths only
+	// runs under that path's guard
+	{
+		n := len(live[0].defers)
+		for _, s := range live {
+			k := 0
+			for k < n && k < len(s.defers) && s.defers[k].lit == live[0].defers[k].lit && s.defers[k].call == live[0].defers[k].call && s.defers[k].cond == live[0].defers[k].cond {
+				k++
+			}
+			n = k
+		}
+		m.defers = append([]deferRec(nil), live[0].defers[:n]...)
+		for i, s := range live {
+			for _, d := range s.defers[n:] {
+				d2 := d
+				if d2.cond == "" {
+					d2.cond = guards[i]
+				} else {
+					d2.cond = sAnd(d2.cond, guards[i])
+				}
+				m.defers = append(m.defers, d2)
+			}
+		}
+	}
 	if live[0].ghost != nil {
 		m.ghost = map[string]string{}
 		var gk []string
